@@ -49,6 +49,9 @@ func vstubPagedExec(c *Conn, ctx context.Context, req frameBuilder, tracer Trace
 	default:
 		return nil, vErrIO
 	}
+	if ctx != nil && ctx.Err() != nil {
+		return nil, ctx.Err() // Conn.exec refuses a request whose context has ended
+	}
 	vPageReqs = append(vPageReqs, pr)
 	i := len(vPageReqs) - 1
 	if i >= len(vPages) {
@@ -104,6 +107,15 @@ func vstubPoolPickPagingConn(pool *hostConnPool) *Conn { return vPagingConn }
 
 func vFirstPage(c *Conn, q *Query) *Iter {
 	if vBound("executor") != 1 {
+		if vBool("first_page_ran_as_a_speculative_attempt") {
+			// queryExecutor.executeQuery runs each attempt under its own context and cancels it as soon as it
+			// has a result (defer cancel()): later pages belong to the caller's context, not to that one
+			attempt := &vCtx{done: make(chan struct{})}
+			it := c.executeQuery(attempt, q)
+			close(attempt.done)
+			attempt.err = context.Canceled
+			return it
+		}
 		return c.executeQuery(q.context, q)
 	}
 	h := &HostInfo{hostId: "a", connectAddress: vAddrs[0], state: NodeUp}
